@@ -1061,6 +1061,27 @@ func ruleR06_2(p *Program, r *Report) {
 		r.Undecided("R06.2", "anchors", "-", "gzip Writer.Write and Reader.readHeader exist", "not found")
 		return
 	}
+	// the optional fields may be written by the caller of the function that assembles the fixed header
+	hasBody := func(f *ssa.Function) bool {
+		for _, c := range allCalls(f) {
+			if g := c.Common().StaticCallee(); g != nil && (g.Name() == "writeBytes" || g.Name() == "writeString") {
+				return true
+			}
+		}
+		return false
+	}
+	if !hasBody(wr) {
+		for _, g := range p.Funcs() {
+			if g.Pkg != wr.Pkg || !hasBody(g) {
+				continue
+			}
+			for _, c := range allCalls(g) {
+				if c.Common().StaticCallee() == wr {
+					wr = g
+				}
+			}
+		}
+	}
 	// writer order: program order along dominance of the body writes
 	var wOrder []string
 	var prev ssa.Instruction
